@@ -440,7 +440,7 @@ WITNESSES = {
 }
 
 ENGINES = 'E-LOCK + E-WIT over romea-facts'
-TECHNIQUE = 'conversion operators that write nothing are reader entries, updates split over two separate acquisitions of one mutex (race free, not atomic for the readers), shared-mode and try-lock guards in the lockset engine, sweep of every function read (and its in-repo callees) for frozen function-local statics, single precision inside double computations, lossy copy constructors, presence- or argument-keyed member caches, reference members bound to constructor arguments, loop accumulators that are members, members derived in the constructor and not refreshed by setters, results returned by reference to a member buffer, members filled from an argument under a condition that ignores it, hidden non-virtual base members, self-bound reference members, reductions that accumulate in float; publication order of a guard flag and the datum it guards across individually synchronised members; static lockset/escape/critical-section analysis over the type-resolved AST with inter-procedural inlining; static_assert compile-time witnesses'
+TECHNIQUE = 'by-value copies filled from two separately synchronised reads that one writer call updates both (L6), conversion operators that write nothing are reader entries, updates split over two separate acquisitions of one mutex (race free, not atomic for the readers), shared-mode and try-lock guards in the lockset engine, sweep of every function read (and its in-repo callees) for frozen function-local statics, single precision inside double computations, lossy copy constructors, presence- or argument-keyed member caches, reference members bound to constructor arguments, loop accumulators that are members, members derived in the constructor and not refreshed by setters, results returned by reference to a member buffer, members filled from an argument under a condition that ignores it, hidden non-virtual base members, self-bound reference members, reductions that accumulate in float; publication order of a guard flag and the datum it guards across individually synchronised members; static lockset/escape/critical-section analysis over the type-resolved AST with inter-procedural inlining; static_assert compile-time witnesses'
 LEVEL_TEXT = ('Lock discipline decided for every public entry point of the 14 shared class instantiations: race freedom by lockset (L1), '
               'no reference into guarded storage escapes (L2), one critical section per entry (L3), no self-deadlock (L4), '
               'non-copyable shared variables (W1). Holds for all schedules because it is a fact about the program text, not about sampled runs; '
